@@ -3,7 +3,7 @@ C09 — accepted operations vs plain lists: the remaining operations and the ass
 -/
 import PsdVerif.Lemmas.TreeRefine
 
-namespace PsdVerif.Tree
+namespace PsdVerif.TreeSt
 open Spec
 
 theorem abs_setChildren_updateRecord (cfg : Cfg) (s : State) (g : Id) (l : List Id) :
@@ -306,4 +306,4 @@ theorem observe_acc {s : State} (o : Obs) (h : (observe s o).2.isError = false) 
         simp only [hx']
         exact ⟨_, rfl, rfl⟩
 
-end PsdVerif.Tree
+end PsdVerif.TreeSt
